@@ -58,7 +58,13 @@ def _get_unmarshaller(  # type: ignore[return]
     context: routines.ContextT,
 ) -> routines.AbstractUnmarshaller[T]:
     if node.type in context:
-        return context[node.type]
+        routine = context[node.type]
+        # A proxy registered for a cyclic reference must not stand in for the type itself.
+        if node.cyclic or not isinstance(routine, DelayedUnmarshaller):
+            return routine
+
+    if node.cyclic:
+        return DelayedUnmarshaller(node.unwrapped, context=context, var=node.var)
 
     for check, unmarshaller_cls in _HANDLERS.items():
         if check(node.unwrapped):
